@@ -87,3 +87,127 @@ def ximage(x, img):
     if img == "jitter":
         return [float(v) * (1.0 + 1e-6 * ((i % 3) - 1)) for i, v in enumerate(x)]
     return [float(v) for v in x]
+
+
+# ------------------------------------------------------------------------------------------------
+# Sizes.  Small-scope exhaustiveness says nothing about behaviour that starts at a chunk size, a stride, a block width or
+# a cache capacity.  "One input per shortcut you can see in the code": the integer constants of the source under test
+# (literals and constant-folded integer expressions such as 1 << 16) are read from its AST, and every size alphabet below
+# crosses each of them, next to a dense range of small sizes and the usual powers of two.
+_CODE_CONSTANTS = {}
+
+
+def code_constants(lo=8, hi=2 ** 19, subpath=""):
+    """sorted integer constants c (lo <= c <= hi) that occur in the source of the traffic_weaver under test"""
+    import ast
+    import glob
+    import os
+    key = (lo, hi, subpath)
+    if key in _CODE_CONSTANTS:
+        return _CODE_CONSTANTS[key]
+    import traffic_weaver
+    root = os.path.dirname(traffic_weaver.__file__)
+    found = set()
+    for f in glob.glob(os.path.join(root, "**", "*.py"), recursive=True):
+        rel = os.path.relpath(f, root)
+        if subpath and not rel.startswith(subpath):
+            continue
+        if rel.startswith(os.path.join("datasets", "data")) or rel.endswith("_version.py"):
+            continue
+        try:
+            tree = ast.parse(open(f, encoding="utf-8").read())
+        except (SyntaxError, OSError):
+            continue
+        for node in ast.walk(tree):
+            v = None
+            if isinstance(node, ast.Constant) and type(node.value) is int:
+                v = node.value
+            elif isinstance(node, ast.BinOp):
+                try:
+                    v = eval(compile(ast.Expression(node), "<const>", "eval"), {"__builtins__": {}})
+                except Exception:
+                    v = None
+                if type(v) is not int:
+                    v = None
+            if v is not None and lo <= v <= hi:
+                found.add(v)
+    _CODE_CONSTANTS[key] = sorted(found)
+    return _CODE_CONSTANTS[key]
+
+
+POW2_SIZES = (17, 33, 65, 129, 257, 513, 1025)
+
+
+def sizes(dense_to, cap, around_constants=True, pow2=True, minimum=1, subpath=""):
+    """size alphabet: every size minimum..dense_to; c-1, c, c+1, c+2, 2c, 2c+1, 3c+1 for every code constant c; 2^k+1;
+    everything capped at `cap` (sizes above the cap are reported by sizes_dropped)"""
+    s = set(range(minimum, dense_to + 1))
+    if pow2:
+        s.update(POW2_SIZES)
+    if around_constants:
+        for c in code_constants(subpath=subpath):
+            s.update([c - 1, c, c + 1, c + 2, 2 * c, 2 * c + 1, 3 * c + 1])
+    return sorted(v for v in s if minimum <= v <= cap)
+
+
+def sizes_dropped(dense_to, cap, subpath=""):
+    s = set()
+    for c in code_constants(subpath=subpath):
+        s.update([c - 1, c, c + 1, c + 2, 2 * c, 2 * c + 1, 3 * c + 1])
+    return sorted(v for v in s if v > cap)
+
+
+def long_grid(m, kind):
+    """m strictly increasing abscissae, exactly representable (dyadic): 'uniform' 0, 1/2, 1, ...; 'offset' the same
+    starting at -3; 'gaps' steps cycling 1/2, 1, 1/4, 2; 'late-gap' uniform with one double step in the last third"""
+    if kind == "uniform":
+        return [0.5 * i for i in range(m)]
+    if kind == "offset":
+        return [0.5 * i - 3.0 for i in range(m)]
+    if kind == "gaps":
+        steps = (0.5, 1.0, 0.25, 2.0)
+        out, v = [], -1.0
+        for i in range(m):
+            out.append(v)
+            v += steps[i % 4]
+        return out
+    if kind == "late-gap":
+        out, v = [], 0.0
+        for i in range(m):
+            out.append(v)
+            v += 1.0 if i == (2 * m) // 3 else 0.5
+        return out
+    raise ValueError(kind)
+
+
+def long_values(m, kind):
+    """m exactly representable ordinates: 'saw' period-5 sawtooth with sign changes, 'ramp' growing, 'steps' plateaus"""
+    if kind == "saw":
+        return [float((3 * i) % 5 - 2) for i in range(m)]
+    if kind == "ramp":
+        return [0.25 * i - 1.0 for i in range(m)]
+    if kind == "steps":
+        return [float((i // 3) % 4) for i in range(m)]
+    raise ValueError(kind)
+
+
+def interesting_indices(m, dense_to=48, subpath="", limit=40):
+    """all indices of a short array; for a long one the ends and the neighbourhood of the first multiples of every
+    power of two >= 8 and of every code constant (where strides, blocks and chunks begin and end)"""
+    if m <= dense_to:
+        return list(range(m))
+    s = {0, 1, 2, m - 3, m - 2, m - 1, m // 2}
+    cs = sorted(set([8, 16, 32, 64, 128, 256, 512, 1024]) | set(code_constants(subpath=subpath)))
+    for c in cs:
+        for k in (1, 2, 3):
+            for d in (-1, 0, 1):
+                s.add(k * c + d)
+    out = sorted(i for i in s if 0 <= i < m)
+    if len(out) > limit:
+        # keep the ends and thin the middle evenly, deterministically
+        keep = set(out[:8] + out[-6:])
+        rest = [i for i in out if i not in keep]
+        step = max(1, len(rest) // max(1, limit - len(keep)))
+        keep.update(rest[::step])
+        out = sorted(keep)
+    return out
